@@ -222,6 +222,20 @@ def wrapper_forms(rng):
     add("select", [[c1, c2], [f(4), 2.0]])
     add("select", [[c1, c2], [1.0, 2.0]])
     add("select", [[c1, c2], [i(4), f(4)]])
+    # precision mixes: the result dtype is NumPy's promotion over every choice AND the default
+    f32 = lambda *sh: f(*sh).astype(onp.float32)
+    for dflt in (onp.float64(1.5), f(4), 1.5, onp.float32(1.5), 2, onp.array(1.5), 1.5 + 0.5j):
+        add("select", [[c1, c2], [f32(4), f32(4)]], {"default": dflt})
+    add("select", [[c1, c2], [f32(4), f(4)]])
+    add("select", [[c1, c2], [f32(4), f(4)]], {"default": f32(4)})
+    add("select", [[c1, c2], [f(4).astype(onp.float16), f32(4)]], {"default": onp.float16(0.5)})
+    for name in ("concatenate", "stack", "vstack", "hstack", "column_stack"):
+        add(name, [[f32(3), f(3)]])
+        add(name, [[f32(3), f32(3)]])
+        add(name, [[f32(3), i(3)]])
+    add("append", [f32(3), f(2)])
+    add("append", [f32(3), 1.5])
+    add("array", [[f32(2), f(2)]])
     # r_ / c_
     for items in ([f(2), f(3)], [1.0, 2.0, 3.0], [f(2), 1.5, f(2)], [f(2, 2), f(1, 2)], ["1", f(2, 2), f(2, 1)], ["0,2", f(2), f(2)], ["-1", f(2, 2), f(2, 2)], [slice(0, 3), f(2)], [slice(0, 1, 3j), f(2)], [f(2)], [i(2), f(2)], ["0,2,0", f(2), f(2)], [[1.0, 2.0], f(2)], [f(), f()]):
         add("r_", items)
@@ -263,7 +277,7 @@ def _call_form(form, xp, sub=None):
 def _float_leaf_paths(args, prefix=()):
     out = []
     for k, a in enumerate(args):
-        if isinstance(a, onp.ndarray) and a.dtype.kind == "f" and a.dtype == onp.float64:
+        if isinstance(a, onp.ndarray) and a.dtype.kind == "f":  # any precision
             out.append(prefix + (k,))
         elif isinstance(a, float):
             out.append(prefix + (k,))
